@@ -23,6 +23,16 @@ CHECKS = [
      "note": REAL + "; finiteness = definedness over the reals (overflow outside); min/max treated as NaN-propagating; engine-own-variable and boundary-point runs are plain execution companions",
      "technique": "path-exhaustive symbolic execution of the real code + SMT proof of definedness obligations, per topology",
      "also": ["sx2smt", "discharge"]},
+    {"id": "C15", "category": "model_checking",
+     "text": "Bounded SMT check over all primitives of the engine interface (16) in every option variant and argument shape the element layer produces (0-d, length 1..3): the real NumPy primitive executed symbolically (all paths) and the IR of the real CasADi primitive (SX and MX) are proven equal for ALL reals, and both are proven defined (finite) on the admissible domain including boundary zeros.",
+     "note": REAL + "; DM evaluation of CasADi primitives trusted (sampled in encoder validation); vector lengths <= 3",
+     "technique": "symbolic execution of both engines' primitives + SMT (z3 nlsat) equivalence and definedness proofs",
+     "also": ["sx2smt", "discharge"]},
+    {"id": "C17", "category": "model_checking",
+     "text": "Bounded SMT check: the bounds 0 <= q <= min(d + w/T, capacity), full first segment => q = 0, and w+ >= 0 are proven for ALL admissible tuples on the real origin-flow primitives of both engines (all variants, 0-d and length-1) and, on the topology family, on the flow the real Network.step actually uses (recovered from the queue update and as reported by the compiled function), with the parameters of the link the origin feeds.",
+     "note": REAL + "; mainstream capacity clause modulo the analytic lemma L-cap (listed under assumptions); unlimited simplified ramp outside the statement",
+     "technique": "symbolic execution of the real code + SMT (z3 nlsat) proof of inequalities, lemma-instantiated transcendental abstraction",
+     "also": ["sx2smt", "discharge"]},
 ]
 _TODO = "check not built yet in this session (machinery in progress); see DESIGN.md section 3"
-NOT_APPLICABLE = [{"property_id": f"C{i:02d}", "reason": _TODO} for i in list(range(4, 7)) + list(range(8, 20))]
+NOT_APPLICABLE = [{"property_id": f"C{i:02d}", "reason": _TODO} for i in (4, 5, 6, 8, 9, 10, 11, 12, 13, 14, 16, 18, 19)]
